@@ -93,3 +93,132 @@ Example c16_nonvacuous :
   independent_b ps = true /\
   fst (run [2;1;0;1;0;2;0;1] [1;2;3;10]%Z (init_threads ps)) = fst (run (seq_sched ps) [1;2;3;10]%Z (init_threads ps)).
 Proof. split; reflexivity. Qed.
+
+From SKN Require Import Model.FitState Proofs.FitStateProofs Gen.FitState.
+Set Warnings "-notation-overridden".
+Open Scope list_scope.
+
+(** * Fit history (static tie): what can flow from an earlier [fit] into the next one.
+    Model/FitState.v: an estimator is a store of attributes, [fit] a program of reads, writes, conditionals and loops;
+    [stale_reads_of] / [unwritten_of] / [writes_of] are the analysis that harness/translators/fitstate.py runs on the
+    Python classes (Gen/FitState.v). *)
+
+(** Any two estimators with the same constructor parameters — whatever fits / set_params came before — agree after
+    [fit x] on the parameters and on everything [fit] definitely writes, provided every stale read is a parameter. *)
+Theorem fit_noninterference (config : list attr) (p : prog) :
+  (forall a, In a (stale_reads_of p) -> In a config) ->
+  forall (s1 s2 : store) (x : input),
+    agree config s1 s2 ->
+    agree (config ++ definite_of p) (fit p s1 x) (fit p s2 x).
+Proof. exact (FitStateProofs.fit_noninterference config p). Qed.
+Print Assumptions fit_noninterference.
+
+(** Refit = fresh fit, for ALL histories of earlier fits: no stale read outside the parameters and no parameter written. *)
+Theorem refit_equals_fresh_fit (config : list attr) (p : prog) :
+  (forall a, In a (stale_reads_of p) -> In a config) ->
+  (forall a, In a (writes_of p) -> ~ In a config) ->
+  forall (s0 : store) (history : list input) (x : input),
+    agree (config ++ definite_of p) (fit p (after_history p s0 history) x) (fit p s0 x).
+Proof. exact (FitStateProofs.refit_equals_fresh_fit config p). Qed.
+Print Assumptions refit_equals_fresh_fit.
+
+(** ... and with no stale output, on every attribute that any run of [fit] can write (all others are never touched). *)
+Theorem refit_equals_fresh_fit_all_outputs (config : list attr) (p : prog) :
+  (forall a, In a (stale_reads_of p) -> In a config) ->
+  (forall a, In a (writes_of p) -> ~ In a config) ->
+  unwritten_of p = [] ->
+  forall (s0 : store) (history : list input) (x : input),
+    agree (config ++ writes_of p) (fit p (after_history p s0 history) x) (fit p s0 x).
+Proof. exact (FitStateProofs.refit_equals_fresh_fit_all_outputs config p). Qed.
+Print Assumptions refit_equals_fresh_fit_all_outputs.
+
+Theorem fit_leaves_the_rest (p : prog) (s : store) (x : input) (a : attr) :
+  ~ In a (writes_of p) -> fit p s x a = s a.
+Proof. exact (FitStateProofs.fit_leaves_the_rest p s x a). Qed.
+Print Assumptions fit_leaves_the_rest.
+
+(** The converse — each hypothesis is needed; these are the three historical defect shapes
+    (35c5c5eb scores_/embedding_ of an earlier fit reused; self.bipartite left over; labels_row_ only set when bipartite). *)
+Theorem stale_read_refuted :
+  stale_reads_of warm_start = ["scores_"] /\ writes_of warm_start = ["scores_"] /\ unwritten_of warm_start = [] /\
+  exists (s0 : store) (history : list input) (x : input),
+    fit warm_start (after_history warm_start s0 history) x "scores_" <> fit warm_start s0 x "scores_".
+Proof. exact FitStateProofs.stale_read_refuted. Qed.
+Print Assumptions stale_read_refuted.
+
+Theorem config_overwrite_refuted :
+  (forall a, In a (stale_reads_of leftover_flag) -> In a ["bipartite"]) /\
+  history_safe ["bipartite"] leftover_flag = false /\
+  In "labels_" (definite_of leftover_flag) /\ unwritten_of leftover_flag = [] /\
+  exists (s0 : store) (history : list input) (x : input),
+    fit leftover_flag (after_history leftover_flag s0 history) x "labels_" <> fit leftover_flag s0 x "labels_".
+Proof. exact FitStateProofs.config_overwrite_refuted. Qed.
+Print Assumptions config_overwrite_refuted.
+
+Theorem stale_output_refuted :
+  history_safe [] row_output = true /\ unwritten_of row_output = ["labels_row_"] /\
+  exists (s0 : store) (history : list input) (x : input),
+    fit row_output (after_history row_output s0 history) x "labels_" = fit row_output s0 x "labels_" /\
+    fit row_output (after_history row_output s0 history) x "labels_row_" <> fit row_output s0 x "labels_row_".
+Proof. exact FitStateProofs.stale_output_refuted. Qed.
+Print Assumptions stale_output_refuted.
+
+(** Non-vacuity: the repaired programs (reset first / flag recomputed from the input) and a program with a loop meet the
+    hypotheses of the theorems above. *)
+Theorem repaired_programs_pass :
+  history_safe [] warm_start_repaired = true /\ unwritten_of warm_start_repaired = [] /\
+  history_safe [] leftover_flag_repaired = true /\ unwritten_of leftover_flag_repaired = [] /\
+  history_safe [] row_output_repaired = true /\ unwritten_of row_output_repaired = [] /\
+  history_safe ["damping"] loop_prog = true /\ stale_reads_of loop_prog = ["damping"] /\ unwritten_of loop_prog = ["last_"].
+Proof. exact FitStateProofs.repaired_programs_pass. Qed.
+Print Assumptions repaired_programs_pass.
+
+(** Obligation over the fit-state facts re-extracted from every estimator class on this run (Gen/FitState.v).
+    For every class that defines or inherits [fit], every attribute that the analysis cannot clear is listed here with
+    the reason it was accepted after reading the code; any other class has NO stale read, reads no constructor-assigned
+    attribute that fit overwrites before fit's own definite write, and leaves no output of an earlier fit in place.
+    A change of any list breaks this proof: the entry must then be reviewed (and, if it is a real history dependence,
+    the fit-history sweep of the check exhibits it). *)
+Theorem fit_state_reviewed :
+  (* GNNClassifier.fit continues training by design; its documented refit-from-scratch mode is analysed (and run) *)
+  fit_state_entry_assumptions = [("GNNClassifier", "reinit", true)] /\
+  all_stale_reads =
+    [ (* GD.step / ADAM.step(gnn) read gnn.layers and gnn.derivative_weight/_bias, which backward() assigned earlier in
+         the same epoch, and assign layer.weight / layer.bias; they touch nothing else of the classifier *)
+      ("GNNClassifier", "<self escapes to self.optimizer.step>") ] /\
+  all_config_overwritten_read_first =
+    [ (* layer objects given to the constructor: under reinit every layer gets weights_initialized = False, so forward()
+         draws new weights (NumPy generator seeded by random_state) and overwrites embedding/output before backward() *)
+      ("GNNClassifier", "layers");
+      (* transcript appended to by print_log, read by nothing (not certified as an accumulator only because self is
+         handed to optimizer.step, which does not touch it) *)
+      ("GNNClassifier", "log");
+      (* under reinit optimizer.t = 0, and ADAM.step re-zeroes its moment buffers when t = 0 (fix dc1b8de1); GD is stateless *)
+      ("GNNClassifier", "optimizer");
+      (* `if isinstance(self.solver, str): self.solver = LanczosSVD()`: idempotent normalisation of the parameter
+         'lanczos' to the solver it denotes; the solver is refitted as a whole before any of its attributes is read *)
+      ("GSVD", "solver");
+      ("SVD", "solver") ] /\
+  all_stale_outputs =
+    [ (* scratch gradients of the training loop: assigned by backward() in every epoch before optimizer.step reads them;
+         only n_epochs = 0 leaves the earlier ones in place, and then nothing reads them *)
+      ("GNNClassifier", "derivative_bias");
+      ("GNNClassifier", "derivative_weight");
+      ("GNNClassifier", "log");            (* see above *)
+      ("GSVD", "solver");                  (* see above: assigned only while it still is the string *)
+      ("SVD", "solver") ] /\
+  (* self.log += text in Log.print_log is the only access to log in the whole class: a diagnostic transcript *)
+  fit_state_accumulators = [("Leiden", "log"); ("Louvain", "log")] /\
+  (* sub-estimators refitted as a whole by self.x.fit*(...) before their results are read; each of them is itself an
+     estimator class of this list: LanczosSVD (clean), Louvain built in __init__ (clean up to its log), and the
+     embedding method handed to the constructor (Spectral, GSVD, ... : this very obligation) *)
+  fit_state_delegations =
+    [ ("GSVD", "solver", "fit"); ("HITS", "solver", "fit");
+      ("LouvainHierarchy", "_clustering_method", "fit_predict"); ("LouvainIteration", "_clustering_method", "fit_predict");
+      ("NNClassifier", "embedding_method", "fit_transform"); ("NNLinker", "embedding_method", "fit_transform");
+      ("PCA", "solver", "fit"); ("SVD", "solver", "fit") ] /\
+  (* non-vacuity: the estimator classes of the property's anchors are among the analysed classes *)
+  forallb (fun c => existsb (String.eqb c) fit_state_classes)
+    ["Louvain"; "Leiden"; "KCenters"; "RandomProjection"; "GSVD"; "GNNClassifier"; "PageRank"; "LouvainHierarchy"] = true.
+Proof. repeat split; reflexivity. Qed.
+Print Assumptions fit_state_reviewed.
